@@ -332,7 +332,15 @@ fn context_section(arch: Arch, r: &Regs, rng: &mut Xoshiro) -> Section {
             c.rdi = r.sp;
             c.r12 = rng.next_u64();
             if let Some(a) = r.near {
-                let mut o = |k: u64| a.wrapping_add(k * 8).wrapping_add(rng.below(64) as u64);
+                let flipped = rng.below(2) == 0;
+                let mut o = |k: u64| {
+                    let v = a.wrapping_add(k * 8).wrapping_add(rng.below(64) as u64);
+                    if flipped {
+                        v ^ (1u64 << rng.below(47))
+                    } else {
+                        v
+                    }
+                };
                 c.rax = o(0);
                 c.rbx = o(1);
                 c.rdx = o(2);
@@ -452,6 +460,18 @@ pub fn gen_world(opts: &WorldOpts) -> World {
         }
         modules.push(m);
     }
+    // adversarial: the last module sits at the very top of the address space
+    if adv && chance("dump.mod.top_of_space", 1, 6) {
+        let m = modules.last_mut().unwrap();
+        let top: u64 = if w == 4 && chance("dump.mod.top32", 1, 2) { 0x1_0000_0000 } else { 0 };
+        m.base = match ch("dump.mod.top_kind", 4) {
+            0 => top.wrapping_sub(m.size as u64).wrapping_sub(1), // end == 2^64-1 (or 2^32-1) exactly
+            1 => top.wrapping_sub(m.size as u64),                 // base + size == 2^64: wraps to 0
+            2 => top.wrapping_sub(m.size as u64 / 2),             // base + size overflows
+            _ => top.wrapping_sub(m.size as u64).wrapping_sub(2),
+        };
+        probe("e4.module_top_of_space");
+    }
 
     // threads
     let nthreads = if opts.many_threads && chance("dump.many_threads", 1, 12) {
@@ -484,7 +504,7 @@ pub fn gen_world(opts: &WorldOpts) -> World {
         let nwords = slen / w as usize;
         let pick_ret = |rng: &mut Xoshiro| -> u64 {
             let m = &modules[rng.below(modules.len() as u32) as usize];
-            m.base + 0x1000 + (rng.below((m.size.saturating_sub(0x1000)).max(1)) as u64 & !3) + 2
+            m.base.wrapping_add(0x1000 + (rng.below((m.size.saturating_sub(0x1000)).max(1)) as u64 & !3) + 2)
         };
         // random but plausible words
         for i in 0..nwords {
@@ -508,7 +528,7 @@ pub fn gen_world(opts: &WorldOpts) -> World {
             lr: pick_ret(&mut rng),
             near: None,
         };
-        if rng.below(3) == 0 {
+        if rng.below(2) == 0 {
             r.near = Some(sbase + (slen as u64 / 2 & !7));
         }
         let shape_name: &'static str;
@@ -665,8 +685,13 @@ pub fn gen_world(opts: &WorldOpts) -> World {
             exception_ctx_of = Some(t.id);
         }
         // code bytes at the crashing ip (for instruction analysis on amd64)
-        if chance("dump.exc.code_memory", 1, 2) {
-            const SNIPPETS: [&[u8]; 10] = [
+        if chance("dump.exc.code_memory", 2, 3) {
+            const SNIPPETS: [&[u8]; 15] = [
+                &[0x48, 0x8b, 0x04, 0x0b],             // mov rax, [rbx+rcx]
+                &[0x89, 0x04, 0xb3],                   // mov [rbx+rsi*4], eax
+                &[0x4a, 0x03, 0x04, 0x02],             // add rax, [rdx+r8]
+                &[0x48, 0x39, 0x0c, 0x18],             // cmp [rax+rbx], rcx
+                &[0x4b, 0x8b, 0x44, 0x0d, 0x10],       // mov rax, [r13+r9+0x10]
                 &[0x50],                               // push rax
                 &[0xe8, 0x00, 0x01, 0x00, 0x00],       // call rel32
                 &[0x48, 0x89, 0x18],                   // mov [rax], rbx
@@ -678,7 +703,7 @@ pub fn gen_world(opts: &WorldOpts) -> World {
                 &[0x0f, 0x0b],                         // ud2
                 &[0x48, 0xff, 0x74, 0x24, 0x08],       // push [rsp+8]
             ];
-            let mut code = SNIPPETS[ch("dump.exc.snippet", 10) as usize].to_vec();
+            let mut code = SNIPPETS[ch("dump.exc.snippet", 15) as usize].to_vec();
             code.extend_from_slice(&simkit::blob("dump.exc.codetail", 15));
             if !use_mem64 {
                 synth = synth.add_memory(Memory::with_section(Section::with_endian(e).append_bytes(&code), t.ip));
@@ -766,7 +791,7 @@ pub fn gen_world(opts: &WorldOpts) -> World {
         if streams & 128 != 0 {
             let mut maps = String::new();
             for m in &modules {
-                maps.push_str(&format!("{:x}-{:x} r-xp 00000000 08:01 123 {}\n", m.base, m.base + m.size as u64, m.code_file));
+                maps.push_str(&format!("{:x}-{:x} r-xp 00000000 08:01 123 {}\n", m.base, m.base.wrapping_add(m.size as u64), m.code_file));
             }
             maps.push_str(&format!("{:x}-{:x} rw-p 00000000 00:00 0 [stack]\n", threads[0].stack_base, threads[0].stack_base.wrapping_add(threads[0].stack_len as u64)));
             if adv {
